@@ -1,6 +1,6 @@
 (** C03: cycle-level monitor (Run/Cycle.v) + function-level correspondence for
     the gang bookkeeping (Model/Gang.v). *)
-From KaiV Require Export Run.Cycle Model.Gang.
+From KaiV Require Export Run.Cycle Model.Gang Model.GangAttempt.
 Open Scope Z_scope.
 
 Record gcase := mkG {
@@ -12,7 +12,19 @@ Record gcase := mkG {
   g_ready : bool; g_sat : bool; g_pipe : bool;   (* IsReadyForScheduling, IsGangSatisfied, ShouldPipelineJob *)
 }.
 
-Inductive c03case := GCycle (k : ccase) | GGang (g : gcase).
+(** One gang through the real allocate action (harness/internal/cycle/attempt.go):
+    pod sets before the action in the production pop order, the Bind /
+    TaskPipelined calls of its pods per pod set in commit order (the placement
+    oracle of Model/GangAttempt.v), pods per status (Allocated or Binding,
+    Pipelined, Pending) in every pod set afterwards. *)
+Record gacase := mkGA {
+  ga_sets : list pset;
+  ga_oracle : omap;
+  ga_final : list (positive * (Z * Z * Z));
+  ga_panic : bool;
+}.
+
+Inductive c03case := GCycle (k : ccase) | GGang (g : gcase) | GAttempt (a : gacase).
 
 Definition zlookup (k : positive) (l : list (positive * Z)) : Z :=
   match find (fun p => Pos.eqb (fst p) k) l with Some p => snd p | None => 0 end.
@@ -41,12 +53,46 @@ Definition gang_monitor (g : gcase) : bool :=
         || forallb (fun ps => n_active_alloc ps - zlookup (ps_id ps) (g_evict g) =? 0) (g_sets g)
       else true).
 
+Definition n_status (s : status) (ps : pset) : Z := countb (fun t => status_eqb (pt_status t) s) (ps_tasks ps).
+Definition final_lookup (id : positive) (l : list (positive * (Z * Z * Z))) : option (Z * Z * Z) :=
+  match find (fun p => Pos.eqb (fst p) id) l with Some p => Some (snd p) | None => None end.
+
+(** the model's loop (allocate_job), driven by the observed placements, ends in the observed statuses
+    and consumes exactly the observed calls *)
+Definition attempt_agrees (a : gacase) : bool :=
+  negb (ga_panic a)
+  && let fuel := S (List.length (flat_map ps_tasks (ga_sets a))) in
+     let res := if forallb ready (ga_sets a) && has_tasks true (ga_sets a)
+                then allocate_job fuel true (ga_oracle a) (ga_sets a)
+                else ([], ga_sets a, ga_oracle a) in
+     match res with
+     | (_, fin, o) =>
+         forallb (fun ps => match final_lookup (ps_id ps) (ga_final a) with
+                            | Some (al, pi, pe) => (n_status Allocated ps =? al) && (n_status Pipelined ps =? pi) && (n_status Pending ps =? pe)
+                            | None => false
+                            end) fin
+         && forallb (fun ps => match olook (ps_id ps) o with [] => true | _ => false end) (ga_sets a)
+     end.
+
+(** the gang clause on the real calls alone: a pod set of which something is bound has its minimum
+    of pods that hold resources; a pod set of which something is placed (bound or nominated) gets at
+    least what it misses to its minimum *)
+Definition n_out (o : outcome) (l : list outcome) : Z :=
+  countb (fun x => match x, o with OBound, OBound | OPiped, OPiped | OFail, OFail => true | _, _ => false end) l.
+Definition attempt_monitor (a : gacase) : bool :=
+  forallb (fun ps => let os := olook (ps_id ps) (ga_oracle a) in
+             let b := n_out OBound os in let p := n_out OPiped os in
+             (n_out OFail os =? 0)
+             && ((b =? 0) || (ps_min ps <=? n_holding ps + b))
+             && ((b + p =? 0) || (ps_min ps <=? n_active_alloc ps + b + p)))
+          (ga_sets a).
+
 Definition model_agrees (c : c03case) : bool :=
-  match c with GCycle k => cycle_agrees k | GGang g => gang_agrees g end.
+  match c with GCycle k => cycle_agrees k | GGang g => gang_agrees g | GAttempt a => attempt_agrees a end.
 Definition monitor_ok (c : c03case) : bool :=
-  match c with GCycle k => c03_ok k | GGang g => gang_monitor g end.
+  match c with GCycle k => c03_ok k | GGang g => gang_monitor g | GAttempt a => attempt_monitor a end.
 Definition run_mismatches (cs : list (nat * c03case)) : list nat := failing (fun k => negb (model_agrees k)) cs.
 Definition run_monitor (cs : list (nat * c03case)) : list nat := failing (fun k => negb (monitor_ok k)) cs.
 Definition run_flags (cs : list (nat * c03case)) : list (nat * list nat) :=
   filter (fun p => negb (Nat.eqb (List.length (snd p)) 0))
-         (map (fun c => (fst c, match snd c with GCycle k => cycle_flags k | GGang _ => [] end)) cs).
+         (map (fun c => (fst c, match snd c with GCycle k => cycle_flags k | _ => [] end)) cs).
